@@ -216,7 +216,26 @@ func flattenAnd(f string) []string {
 	return out
 }
 
+// noRetry: obligations that are expected to stay undecided (listed known findings): not worth a second, longer attempt.
+var noRetry = map[string]bool{}
+
+// exemptCheck: set by verify(); exempt obligations are not counted, so they are not worth a second attempt either.
+var exemptCheck func(string) string
+
+// solveOne decides one obligation with the solver portfolio. An undecided answer (unknown / time-out from every
+// back end) is retried once with three times the time limit before it is reported: an obligation that is decided in a
+// fraction of a second on an idle machine must not become an alarm because the machine was busy.
 func solveOne(ctxText string, o *Oblig, timeoutMs int, sem chan struct{}) {
+	solveOnce(ctxText, o, timeoutMs, sem)
+	if !o.IsCover && !noRetry[o.Name] && (exemptCheck == nil || exemptCheck(o.Name) == "") && o.Result != "unsat" && o.Result != "sat" && o.Result != "disagree" && !strings.HasPrefix(o.Result, "error") {
+		if os.Getenv("GOVC_TRACE") != "" {
+			fmt.Fprintf(os.Stderr, "retry %s (%s)\n", o.Name, o.Result)
+		}
+		solveOnce(ctxText, o, 3*timeoutMs, sem)
+	}
+}
+
+func solveOnce(ctxText string, o *Oblig, timeoutMs int, sem chan struct{}) {
 	script := ctxText + obligQuery(o) + "\n(check-sat)\n"
 	type res struct {
 		solver string
